@@ -1,3 +1,100 @@
+//! E2 — program generation engine: properties that quantify over programs.
+
+mod c06;
 mod driver;
+mod e2;
 mod pat;
-fn main() {}
+
+use serde_json::Value;
+use vcore::{Ctx, Tier, EXIT_INCONCLUSIVE, EXIT_OK, EXIT_VIOLATION};
+
+fn usage() -> ! {
+    eprintln!("usage: progen <PROPERTY> [quick|thorough] | progen --replay <file>");
+    std::process::exit(EXIT_INCONCLUSIVE)
+}
+
+type ReplayFn<'a> = &'a dyn Fn(&str, Value) -> Result<(), String>;
+
+/// Replays every saved input of the property (one single-case build each).
+pub fn replay_corpus(ctx: &Ctx, f: ReplayFn) -> vcore::SubReport {
+    let mut rep = vcore::SubReport::new("replay-corpus");
+    for path in vcore::replay_files(&ctx.prop) {
+        let Ok(rf) = vcore::load_replay(&path) else { continue };
+        if rf.property != ctx.prop {
+            continue;
+        }
+        rep.evaluations += 1;
+        match f(&rf.sub, rf.case.clone()) {
+            Ok(()) => {}
+            Err(reason) if reason.starts_with("HARNESS") => {
+                rep.inconclusive = Some(format!("{}: {reason}", path.display()));
+            }
+            Err(reason) => {
+                if rep.failure.is_none() {
+                    rep.failure = Some(vcore::Failure {
+                        sub: rf.sub.clone(),
+                        case: rf.case.clone(),
+                        reason: format!("saved input {} fails again: {reason}", path.display()),
+                    });
+                }
+            }
+        }
+    }
+    rep
+}
+
+fn replay_case(prop: &str, sub: &str, case: Value) -> Result<(), String> {
+    match prop {
+        "C06" => c06::replay(sub, case),
+        other => Err(format!("HARNESS: progen has no replay for {other}")),
+    }
+}
+
+fn main() {
+    vcore::panics::install_quiet_hook();
+    let args: Vec<String> = std::env::args().skip(1).collect();
+    if args.is_empty() {
+        usage();
+    }
+    if args[0] == "--replay" {
+        let Some(path) = args.get(1) else { usage() };
+        let path = std::path::Path::new(path);
+        let rf = match vcore::load_replay(path) {
+            Ok(r) => r,
+            Err(e) => {
+                eprintln!("{e}");
+                std::process::exit(EXIT_INCONCLUSIVE)
+            }
+        };
+        let code = match replay_case(&rf.property, &rf.sub, rf.case.clone()) {
+            Ok(()) => {
+                println!("replay {}: property {} holds on this input", path.display(), rf.property);
+                EXIT_OK
+            }
+            Err(r) if r.starts_with("HARNESS") => {
+                println!("INCONCLUSIVE {r}");
+                EXIT_INCONCLUSIVE
+            }
+            Err(r) => {
+                println!("  {r}");
+                println!("VIOLATION property={} replay={}", rf.property, path.display());
+                EXIT_VIOLATION
+            }
+        };
+        std::process::exit(code);
+    }
+    let tier = match args.get(1).cloned().or_else(|| std::env::var("VERIF_TIER").ok()).as_deref() {
+        Some("thorough") => Tier::Thorough,
+        Some("quick") | None => Tier::Quick,
+        Some(_) => usage(),
+    };
+    let ctx = Ctx::new(&args[0], tier);
+    let verdict = match ctx.prop.as_str() {
+        "C06" => c06::run(&ctx),
+        other => {
+            eprintln!("progen: property {other} is not served by this engine");
+            std::process::exit(EXIT_INCONCLUSIVE)
+        }
+    };
+    std::process::exit(vcore::finish(&ctx, verdict));
+}
